@@ -1292,8 +1292,8 @@ func (gen *c12Gen) mutateTree(g *Rng, t *c12Tree) (c12Case, bool) {
 		}
 		return c, false
 	}
-	if g.Chance(25) {
-		// directed boundary mutation (c12_directed.go), now and then followed by a blind one
+	if g.Chance(38) {
+		// directed mutation (c12_directed.go), now and then followed by a blind one
 		if d := gen.directedOnce(g, t); d != "" {
 			muts := []string{d}
 			if g.Chance(15) {
